@@ -841,6 +841,10 @@ def rule_pairs(eng, ctx):
                     continue
                 if "**" in prm["t"]["s"].replace(" ", ""):
                     continue
+                if not prm["t"].get("pconst") and (prm["t"].get("pointee") or "") != "void":
+                    # a pointer the callee writes through (a builder's cursor): where it may write is C13-R3/R5's tiling and sizing
+                    # obligation, not a read of input; the parameter that follows it is not its size
+                    continue
                 pa, sa = args[i], strip_all_casts(args[si])
                 pr = prov(f, pa, outptr=outp)
                 pcan, scan = canon(strip_all_casts(pa)), canon(sa)
@@ -1207,6 +1211,17 @@ def own_offset_canon(e):
     return s
 
 
+def is_builder(eng, f, depth=0):
+    """f is one of the payload builders, or a write helper that only builders call (its writes are placed by C13-R3's tiling)"""
+    if f.name.split("<")[0] in BUILDERS or any(f.name.startswith(b) for b in BUILDERS):
+        return True
+    if depth > 2:
+        return False
+    sites = eng.callers.get(f.key, [])
+    return bool(sites) and any(prm["t"].get("k") == "ptr" and not prm["t"].get("pconst") for prm in f.params) and \
+        all(is_builder(eng, cf, depth + 1) for cf, _ in sites)
+
+
 def sized_to(eng, f, c, vecname):
     """canon of the expression the vector `vecname` was sized to before copy c in f: a dominating resize, the
     constructor's member initialiser, or the initialiser of the constructor this one delegates to."""
@@ -1410,7 +1425,7 @@ def justify_copy(eng, f, c, dst, src, ln, managed=False):
             # local def of the size
             wr_ok = False
             wr = "destination sized `%s`, copy needs %s" % (sized, exp)
-        elif f.name.split("<")[0] in BUILDERS or any(f.name.startswith(b) for b in BUILDERS):
+        elif is_builder(eng, f):
             wr_ok = True
             wr = "builder buffer (sizing checked by C13-R5; arithmetic sufficiency not decided)"
         else:
@@ -1440,7 +1455,7 @@ def justify_copy(eng, f, c, dst, src, ln, managed=False):
                         wr = "writes `%s` bytes at offset %d; every call site passes a constant that fits %d bytes (%s)" % (lcan, symv, hsize, vals)
             else:
                 wr = "destination `%s` not sized for %s" % (canon(dst)[:60], exp)
-    elif pd.kind in ("cursor", "param") and (any(f.name.startswith(b) for b in BUILDERS)):
+    elif pd.kind in ("cursor", "param") and is_builder(eng, f):
         wr_ok = True
         wr = "builder cursor inside a buffer resized from the same operands (C13-R5; arithmetic sufficiency not decided)"
     elif pd.kind == "param":
@@ -1449,7 +1464,7 @@ def justify_copy(eng, f, c, dst, src, ln, managed=False):
         wr_ok = False
     elif pd.kind == "unknown":
         dd = strip_all_casts(dst)
-        if dd.get("k") == "ref" and any(f.name.startswith(b) for b in BUILDERS):
+        if dd.get("k") == "ref" and is_builder(eng, f):
             wr_ok = True
             wr = "builder cursor (C13-R5)"
     return rd_ok and wr_ok, "; ".join(reasons + [wr])
